@@ -887,4 +887,7 @@ def run(P, R, tier):
     c14.ownership(P, R, 'C16.OWN.1')
     # the parser and the merge keep nothing from one load (or one entry, or one nested call) to the next
     rules.no_static_locals(P, R, 'C16.WMC.9', P.unit_fns(P.need_fn('conf_read').unit), 'configuration code')
+    # a hook may read what the file said, not edit it
+    from . import c14 as _c14o
+    _c14o.node_texts_read_only(P, R, 'C16.OWN.2')
     return EXPLANATION, ASSUMPTIONS
